@@ -2,6 +2,7 @@
 From Refinery Require Import Lib.Base Model.Panics Gen.GenC28.
 From Coq Require Import ZifyN ZifyNat ZifyBool.
 
+Definition queue_sizes_validated_nonnegative : bool := queue_peer_nonneg && queue_incoming_nonneg.
 Definition rates_clamped : bool := rate_clamped_0 && rate_clamped_1 && rate_clamped_2 && rate_clamped_3 && rate_clamped_4.
 
 (* ---------- GetKeyFields never panics once the loop skips empty names ---------- *)
@@ -190,7 +191,8 @@ Lemma table_not_stale : existsb stale dispositions = false.
 Proof. vm_compute. reflexivity. Qed.
 (* the two sites that were reachable from accepted configurations are guarded in the source now *)
 Lemma fixes_present : key_fields_skips_empty && det_start_guards_rate && det_rate_le_1_keeps && http_has_panic_catcher &&
-  validation_rejects_negative_durations && rates_clamped && batch_ticker_clamped && (ema_throughput_interval_bounded && duration_bounds_keep_fraction) && rules_draw_guarded = true.
+  validation_rejects_negative_durations && rates_clamped && batch_ticker_clamped && (ema_throughput_interval_bounded && duration_bounds_keep_fraction) && rules_draw_guarded &&
+  queue_sizes_validated_nonnegative = true.
 Proof. reflexivity. Qed.
 
 Local Close Scope string_scope.
@@ -259,3 +261,16 @@ Lemma rules_draw_gen_safe drop rate : rules_draw rules_draw_guarded drop rate <>
 Proof. apply rules_draw_strict_safe. Qed.
 Lemma rules_draw_weak_guard_refuted : rules_draw false false (-1) = None.
 Proof. reflexivity. Qed.
+
+(* ---------- collector queue sizes ---------- *)
+Lemma worker_queue_safe size workers : 1 <= workers -> queue_size_accepted true size = true -> worker_queue size workers <> None.
+Proof.
+  unfold queue_size_accepted, worker_queue. intros Hw Hs. apply Z.leb_le in Hs.
+  assert (0 <= Z.quot (size + workers - 1) workers) by (apply Z.quot_pos; lia).
+  destruct (Z.quot (size + workers - 1) workers <? 0) eqn:E; [lia|discriminate].
+Qed.
+Lemma worker_queue_gen_safe size workers :
+  1 <= workers -> queue_size_accepted queue_sizes_validated_nonnegative size = true -> worker_queue size workers <> None.
+Proof. apply worker_queue_safe. Qed.
+Lemma worker_queue_refuted_before_fix : queue_size_accepted false (-1) = true /\ worker_queue (-1) 1 = None.
+Proof. split; reflexivity. Qed.
